@@ -1,12 +1,17 @@
 #!/bin/sh
 # Build the framework from files on disk only (offline): full .vo build of the Coq development
-# and every correspondence harness binary against /repo's working tree.
-set -e
+# and every correspondence harness binary against /repo's working tree. Each check re-builds what
+# it needs itself (make / cargo are incremental), so a failure of an unrelated file here must not
+# stop the others: make -k, one cargo invocation per binary.
 cd "$(dirname "$0")"
 export CARGO_NET_OFFLINE=true
 mkdir -p .work evidence replays
 python3 -c "import sys; sys.path.insert(0,'lib'); import vlib; vlib.run_gen(); vlib.write_coq_project()"
-( cd coq && coq_makefile -f _CoqProject -o Makefile.coq >/dev/null && timeout 3400 make -f Makefile.coq -j16 )
+( cd coq && coq_makefile -f _CoqProject -o Makefile.coq >/dev/null && timeout 3400 make -k -f Makefile.coq -j16 2>&1 | grep -E "Error|error|\*\*\*" | head -20 )
 cp /repo/Cargo.lock harness/Cargo.lock
-( cd harness && timeout 3400 cargo build --offline --quiet --bins 2>&1 | grep -v "^warning\|^ *|\|^ *-->\|^ *=\|^$" | tail -20 ; test -x target/debug/c12 )
-echo setup-ok
+( cd harness && timeout 3400 cargo build --offline --quiet --lib 2>&1 | grep -E "^error" -A 8 | head -40
+  for f in src/bin/*.rs; do
+    b=$(basename "$f" .rs)
+    timeout 1800 cargo build --offline --quiet --bin "$b" 2>&1 | grep -E "^error" -A 8 | head -20
+  done )
+test -x harness/target/debug/c12 && test -f coq/theories/Props/C12.vo && echo setup-ok
